@@ -116,8 +116,9 @@ def _eps(arr):
     return float(np.finfo(np.float32 if "32" in str(arr.dtype) else np.float64).eps)
 
 
-def check_object(s, where):
-    """Judge one Samples object after compute_weights (post-state)."""
+def check_object(s, where, skip_evidence=False):
+    """Judge one Samples object after compute_weights (post-state).  skip_evidence: a selection carries its parent's
+    evidence (C16), so only the functionals of its own weights are judged."""
     v = STATE["viol"]
     ll, lp, lq = (np.asarray(to_np(a), dtype=float) for a in (s.log_likelihood, s.log_prior, s.log_q))
     lw = np.asarray(to_np(s.log_w), dtype=float)
@@ -136,7 +137,7 @@ def check_object(s, where):
         return  # every weight is zero: evidence and ESS are not defined (a selection made by this harness, not a generated vector)
     R = ref_functionals(lw)
     # (2) log evidence
-    lz = float(to_np(s.log_evidence))
+    lz = R["logz"] if skip_evidence else float(to_np(s.log_evidence))
     tol = eps * (32 * (abs(R["c"]) + 1) + 64 * math.sqrt(n))
     if not (abs(lz - R["logz"]) <= tol):
         v.append({"mech": "C02/log_evidence-wrong", "detail": f"{where}: log_evidence={lz!r} ref={R['logz']!r} tol={tol:.3g} n={n} max={R['c']}"})
@@ -156,6 +157,8 @@ def check_object(s, where):
     xarg = np.where(np.isfinite(lw), np.abs(lw - R["c"]), 0.0)
     if sw.shape != (n,) or (np.abs(sw - R["scaled"]) > eps * (16 + 4 * xarg) * R["scaled"] + 4 * tiny).any():
         v.append({"mech": "C02/scaled_weights-wrong", "detail": f"{where}: max abs diff {np.max(np.abs(sw-R['scaled']))!r}"})
+    if skip_evidence:
+        return
     # (5) relative error of the evidence (shift-invariant statistic)
     rel = float(to_np(s.log_evidence_error))
     rtol_rel = 256 * eps * (1 / math.sqrt(n - 1) + R["rel"]) + 1e-300
@@ -209,7 +212,7 @@ def run_case(case):
     g = np.random.default_rng(case["seed"])
     STATE["viol"] = []
     STATE["evals"] = 0
-    counters = {"rechecked_after_readonly_ops": 0, "recomputed_in_place": 0, "vectors": 0, "rejection_checked": 0, "rejection_border_skipped": 0, "ess_helper_checked": 0, "outside_exp_range": 0, "with_neginf": 0}
+    counters = {"selections_judged": 0, "rechecked_after_readonly_ops": 0, "recomputed_in_place": 0, "vectors": 0, "rejection_checked": 0, "rejection_border_skipped": 0, "ess_helper_checked": 0, "outside_exp_range": 0, "with_neginf": 0}
     nontrivial = set()
     sample = None
     for j in range(case["n_vec"]):
@@ -280,6 +283,23 @@ def run_case(case):
             # properties evaluated above) must leave the set as compute_weights() left it
             if n >= 4:
                 s[1 : 1 + n // 2].rejection_sample(rng=RngProxy(int(g.integers(2**31))))
+            # selections are weighted sets too: their weights, ESS, efficiency and scaled weights are functionals of the
+            # selected rows (index arrays with repeats, of the parent's length and of other lengths, permutations, masks)
+            if n >= 3:
+                for kind_i, idx in (
+                    ("bootstrap of the same length", g.integers(0, n, n)),
+                    ("repeats, longer", g.integers(0, n, n + 3)),
+                    ("permutation", g.permutation(n)),
+                    ("mask", g.random(n) < 0.7),
+                ):
+                    if idx.dtype == bool and idx.sum() < 2:
+                        continue
+                    sel = s[idx if (j % 4) else xp.asarray(idx)]
+                    b0 = len(STATE["viol"])
+                    check_object(sel, f"selection ({kind_i})", skip_evidence=True)
+                    for v in STATE["viol"][b0:]:
+                        v["mech"] = v["mech"].replace("C02/", "C02/selection/")
+                    counters["selections_judged"] += 1
             before = len(STATE["viol"])
             check_object(s, "after rejection_sample (whole set and a selection)")
             for v in STATE["viol"][before:]:
